@@ -165,6 +165,7 @@ func init() {
 			r.Rule("C09.deterministic", "no map-order leak, strict Less, local seeded RNG only", 5)
 			r.Rule("C09.stages", "singles → pairs → triplets, index reduced by earlier stage counts", 4)
 			r.Rule("C09.signing-quota", "signing selection stops only under seatCount ≥ requested", 2)
+			r.Rule("C09.stage-count", "an exhausted stage reports the length of its eligible list; a successful one reports 0", 6)
 
 			pkg := r.W.Pkg(rp)
 			if pkg == nil {
@@ -322,6 +323,40 @@ func init() {
 				}
 				if n == 0 {
 					r.Undecided("C09.seat-filter", FnName(fn), "no success return found")
+				}
+				// the count reported on failure is the length of the very list that
+				// the index is compared with and indexed into (the caller subtracts
+				// it to obtain the next stage's index: a different number shifts or
+				// repeats later exclusions)
+				var list ssa.Value
+				for _, p := range ReturnPaths(fn, 2, func(v ssa.Value) bool { cb, isc := constBool(v); return !isc || cb }) {
+					for _, g := range cmpOf(Guards(p.Ret.Block())) {
+						if g.Strict && Desc(stripConv(g.Lo)) == "P2" {
+							if s := isLenOf(g.Hi); s != nil {
+								list = s
+							}
+						}
+					}
+					r.Cond(Desc(RetResults(p.Ret)[1]) == "const:0", "C09.stage-count", FnName(fn)+"#tries-on-success", p.Ret.Pos(), "a successful stage consumes no further tries")
+				}
+				nf := 0
+				for _, p := range ReturnPaths(fn, 2, func(v ssa.Value) bool { cb, isc := constBool(v); return isc && !cb }) {
+					nf++
+					cnt := isLenOf(RetResults(p.Ret)[1])
+					ok := list != nil && cnt != nil && Desc(cnt) == Desc(list)
+					guard := false
+					for _, g := range cmpOf(Guards(p.Ret.Block())) {
+						if !g.Strict && Desc(stripConv(g.Hi)) == "P2" {
+							if s := isLenOf(g.Lo); s != nil && list != nil && Desc(s) == Desc(list) {
+								guard = true
+							}
+						}
+					}
+					r.Cond(ok && guard, "C09.stage-count", FnName(fn)+"#count-on-exhaustion", p.Ret.Pos(),
+						"an exhausted stage reports len(eligible list) under len(eligible list) ≤ index, for the same list that a successful stage indexes; got "+abbr(Desc(RetResults(p.Ret)[1]), 2))
+				}
+				if nf == 0 {
+					r.Undecided("C09.stage-count", FnName(fn), "no exhaustion return found")
 				}
 			}
 			if fn := r.MustFn("C09.seat-filter", rp, "EvaluateRetryParticipantsForSigning"); fn != nil {
